@@ -13,9 +13,12 @@ META = {
             "below 1 and 1.0. TLC checks on all vectors of the bound that limit_ratio(r, v) and limit_ratio(r - 1, v) are disjoint with "
             "union v, that raising r never deselects, and that the loop's partial result is the reference on the processed prefix. "
             "The harness evaluates every (ratio, offset) pair through the exported AddRatioSampleWithOffset(r, o) / (r - 1, o) and "
-            "runs limit_ratio(r, v), limit_ratio(r - 1, v) as instant, range and grouped queries on a real engine over a real TSDB "
+            "runs limit_ratio(r, v), limit_ratio(r - 1, v) as a 3-step range query, as instant queries at every step, inside a subquery and "
+            "grouped, on a real engine over a real TSDB, over series that are present throughout, start late, are stale at the first step, "
+            "have a gap or exist only at the last step "
             "(boundary offsets injected through the package's sampler variable, cell offsets realised by real label hashes); on the "
-            "real answers disjointness, union, monotonicity and step-independence are strict, and each selection must equal the prediction.",
+            "real answers, at every step, disjointness, union (= the input vector at that step), monotonicity and 'a step of a range "
+            "query / subquery selects what the instant query at that step selects' are strict, and each selection must equal the prediction.",
     "note": "The model is exact arithmetic; the rounding of r - 1 and 1 + (r - 1) exists only in the concretised replay, where it is "
             "observed (KF-C34-1: gap at r = 0.3, overlap at r = 0.1 / 0.2; KF-C34-2: offset 1.0). Ratio grid = multiples of 0.1; vectors "
             "of <= 2 series exhaustively (<= 4 checked without replay in the thorough tier, <= 8 by simulation); values play no role.",
@@ -32,10 +35,11 @@ def corrupt(behs):
     """Binding self-test (VERIF_CORRUPT=1): remove one offset from one predicted selection (a cell interior, far from rounding)."""
     for b in behs:
         for k, r in enumerate(b["ratios"]):
-            for u in b["pos"][k]:
-                if u % 4 == 2 and abs(u - r) > 3:
-                    b["pos"][k].remove(u)
-                    return
+            for step in b["pos"][k]:
+                for u in step:
+                    if u % 4 == 2 and abs(u - r) > 3:
+                        step.remove(u)
+                        return
     raise RuntimeError("nothing to corrupt")
 
 
@@ -53,6 +57,11 @@ def run(ctx):
     ctx.account(mc)
     behs += mc.emitted
     ctx.log("LR_quick: %d generated / %d distinct, %d vectors" % (mc.generated, mc.distinct, len(mc.emitted)))
+    # series that start late / are stale at the first step / have a gap / exist only at the last step, over 3 steps
+    stp = ctx.tlc("promql_eval", "LimitRatio", "LR_steps.cfg", workers=W, timeout=600)
+    ctx.account(stp)
+    behs += stp.emitted
+    ctx.log("LR_steps: %d generated / %d distinct, %d vectors" % (stp.generated, stp.distinct, len(stp.emitted)))
     if not q:
         big = ctx.tlc("promql_eval", "LimitRatio", "LR_big.cfg", workers=W, timeout=1800)
         ctx.account(big)
